@@ -163,9 +163,9 @@ func c17Cover(st *engine.Step) []string {
 }
 
 func c17Scenarios(tier string) []engine.Scenario {
-	depth := 3
+	depth := 4
 	if tier == "thorough" {
-		depth = 4
+		depth = 5
 	}
 	var out []engine.Scenario
 	for _, js := range []bool{false, true} {
